@@ -383,7 +383,7 @@ def sweep_expand(cell):
     excs = EXC_SERIAL if m in SERIAL_ONLY else EXC_ALL
     yield base
     kinds = ['drop', 'drop_request', 'err_bang', 'err_named', 'stale_instead', 'stale_hex', 'stale_front',
-             'stale_near', 'late26', 'd25', 'd1']
+             'stale_near', 'stale_case', 'late26', 'd25', 'd1']
     if m == 'query':
         kinds += ['glued', 'glued2']       # only the raw query: wrappers are not asked to decode such data
     for tag, faults in single_faults(rec, exc_classes=excs, reply_kinds=kinds):
@@ -536,8 +536,21 @@ def gen(rng, idx):
                 if kind == 'late':
                     faults['reply'].append({'at': [op['id'], r], 'delay': [rng.choice([26, 26, 27, 40])]})
                 elif kind == 'stale_near':
-                    k2 = rng.choice(['stale_near', 'glued', 'glued2']) if op['m'] == 'query' else 'stale_near'
-                    faults['reply'].append(reply_fault(op['id'], r, k2, name))
+                    k2 = rng.choice(['stale_near', 'stale_case', 'glued', 'glued2']) if op['m'] == 'query' \
+                        else rng.choice(['stale_near', 'stale_case', 'stale_prev'])
+                    if k2 == 'stale_prev':
+                        # the bare name of an earlier request of this object arrives instead (a late acknowledgement)
+                        prev = [req_name(q['text']) for o2 in ops if o2['op'] == 'call' and o2['id'] < op['id'] and
+                                o2.get('obj') == op.get('obj') for q in recs[o2['id']]['requests']]
+                        prev = [x for x in prev if not x.startswith(name) and not name.startswith(x)]
+                        if prev:
+                            faults['reply'].append({'at': [op['id'], r],
+                                                    'stale': {'text': prev[-1] + '\n',
+                                                              'instead': rng.random() < 0.5}})
+                        else:
+                            faults['reply'].append(reply_fault(op['id'], r, 'stale_near', name))
+                    else:
+                        faults['reply'].append(reply_fault(op['id'], r, k2, name))
                 elif kind in ('stale_instead', 'stale_front', 'stale_hex'):
                     w = wrong_line(rng, name)
                     f = {'at': [op['id'], r], 'stale': {'text': w + '\n', 'd': rng.choice([0, 0, 1, 25])}}
